@@ -7,6 +7,29 @@ AST (tuples):
 """
 
 
+_PROP_CACHE = {}
+
+
+def prop_ranges(spec, negate=False):
+    """code point ranges of a Unicode property escape (\\p{spec} / \\P{spec}), enumerated with the `regex` module"""
+    key = (spec, negate)
+    if key not in _PROP_CACHE:
+        import regex
+        rx = regex.compile(r"\%s{%s}" % ("P" if negate else "p", spec), regex.VERSION1)
+        out, lo, prev = [], None, None
+        for cp in range(0x110000):
+            ok = not (0xD800 <= cp <= 0xDFFF) and rx.fullmatch(chr(cp)) is not None
+            if ok:
+                if lo is None: lo = cp
+                prev = cp
+            elif lo is not None:
+                out.append(("r", lo, prev)); lo = None
+        if lo is not None:
+            out.append(("r", lo, prev))
+        _PROP_CACHE[key] = out
+    return list(_PROP_CACHE[key])
+
+
 class Untranslatable(Exception):
     pass
 
@@ -139,12 +162,24 @@ class P:
             if e == "s": return ("cls", False, False, [("s",)])
             if e == "w": return ("cls", False, False, [("w",)])
             if e == "b": return ("wordb",)
+            if e in ("p", "P"): return ("cls", False, False, prop_ranges(self.prop_name(), e == "P"))
             if e and e in ".-'/\\()[]|+*?#": return ("lit", ord(e), False)
             raise Untranslatable("escape \\" + e)
         if c in "*+?{}^$.":
             raise Untranslatable("metacharacter %r at %d" % (c, self.i))
         self.i += 1
         return ("lit", ord(c), self.icase)
+
+    def prop_name(self):
+        """the name after \\p / \\P: one letter or {Name}"""
+        if self.peek() == "{":
+            j = self.s.index("}", self.i)
+            name = self.s[self.i + 1:j]; self.i = j + 1
+        else:
+            name = self.peek(); self.i += 1
+        if not name or not all(ch.isalnum() or ch in "_= " for ch in name):
+            raise Untranslatable("property escape %r" % name)
+        return name
 
     def cls(self):
         self.eat("[")
@@ -161,7 +196,8 @@ class P:
                 if e == "d": items.append(("d",)); continue
                 if e == "s": items.append(("s",)); continue
                 if e == "w": items.append(("w",)); continue
-                if e in "pPbBDSW" or e.isalnum():
+                if e in ("p", "P"): items.extend(prop_ranges(self.prop_name(), e == "P")); continue
+                if e in "bBDSW" or e.isalnum():
                     raise Untranslatable("class escape \\" + e)
                 lo = ord(e)
             else:
